@@ -584,7 +584,7 @@ fn rule_c11(ctx: &Ctx, out: &mut Vec<Violation>) {
                 Some(Outcome::Ok(Resp::Sub(sv))) => {
                     // Was the topic instance it was created on deleted (delete returned OK before this audit)?
                     let deleted_after_create = m.topic_deletes.get(&topic).map(|d| d.iter().any(|dc| m.calls[dc].returned_ok() && m.calls[dc].inv_seq > create.ret_seq_or_max() && m.calls[dc].ret_seq.unwrap() < c.inv_seq)).unwrap_or(false);
-                    let maybe_deleted = m.topic_deletes.get(&topic).map(|d| d.iter().any(|dc| m.calls[dc].maybe_effective() && m.calls[dc].ret_seq_or_max() > create.inv_seq && m.calls[dc].inv_seq < c.inv_seq)).unwrap_or(false);
+                    let maybe_deleted = m.topic_deletes.get(&topic).map(|d| d.iter().any(|dc| m.calls[dc].maybe_effective() && m.calls[dc].effect_end_seq() > create.inv_seq && m.calls[dc].inv_seq < c.inv_seq)).unwrap_or(false);
                     if deleted_after_create && sv.topic != "_deleted_topic_" {
                         // transient handles keep the topic alive only while requests are in flight
                         if !any_call_in_flight(ctx, c.inv_seq) {
